@@ -5,7 +5,8 @@
  *
  * Statement: "its address ... columns decode back to exactly the dumped bytes at the right addresses for any start address":
  * for a range [start, start + size) whose last byte has an address <= 2^64-1,
- *   - the loop visits exactly the 16-byte lines that intersect the range, in order, once each (and terminates),
+ *   - the loop visits exactly the 16-byte lines that intersect the range, in order, once each (and terminates) [fd_line_loop],
+ *   and for every such line i [fd_line, loop-free, i symbolic]:
  *   - in line i the valid columns are exactly the addresses of the range: invalid_start / invalid_end / line_bytes,
  *   - the byte with range offset g_off is placed in exactly one line, in column (start + g_off) & 15,
  *   - the lines consume exactly `size` bytes in total (so the iovec cursor neither runs out nor leaves bytes behind),
@@ -15,7 +16,7 @@
 #define C09_LINES_H
 #include "contracts/verif.h"
 
-extern uint64_t g_i, g_consumed, g_off, g_hits, g_col; extern bool g_interior; extern int g_width;
+extern uint64_t g_i, g_off, g_col; extern bool g_interior; extern int g_width;
 
 #define C09_MAX_I64(a, b) ((int64_t)(a) > (int64_t)(b) ? (int64_t)(a) : (int64_t)(b))     /* std::max<int64_t> */
 
@@ -30,37 +31,49 @@ extern uint64_t g_i, g_consumed, g_off, g_hits, g_col; extern bool g_interior; e
 #define FD_ANY_OFFSET_FLAG (PrintDataFlags_OFFSET_8_BITS | PrintDataFlags_OFFSET_16_BITS | PrintDataFlags_OFFSET_32_BITS | PrintDataFlags_OFFSET_64_BITS)
 #define FD_MIN_WIDTH (FD_LAST < 0x100 ? 2 : FD_LAST < 0x10000 ? 4 : FD_LAST < 0x100000000ull ? 8 : 16)
 
-/* per-line obligations and ghost bookkeeping, placed after the geometry statements of the loop body */
+/* bytes of the range in line i / spec-level consistency (telescoping): FD_BEFORE(i + 1) == FD_BEFORE(i) + FD_BYTES(i) */
+#define FD_BYTES(i) ((uint64_t)(FD_HI(i) - FD_LO(i) + 1))
+
+/* per-line obligations, placed after the geometry statements (line i = g_i, any line of the range) */
 #define FD_LINE_CHECKS \
-  __CPROVER_assert(g_i < FD_NLINES, "only lines that intersect the range are visited"); \
   __CPROVER_assert(line_start_address == FD_LINE_START(g_i), "line i starts at (start & ~15) + 16 i"); \
   __CPROVER_assert(line_invalid_start_bytes == FD_LO(g_i), "columns in front of the range are blank"); \
   __CPROVER_assert(line_invalid_end_bytes == 0x0F - FD_HI(g_i), "columns behind the range are blank"); \
-  __CPROVER_assert(line_bytes == FD_HI(g_i) - FD_LO(g_i) + 1, "the line takes exactly the bytes of the range that lie in it"); \
+  __CPROVER_assert(line_bytes == FD_BYTES(g_i), "the line takes exactly the bytes of the range that lie in it"); \
   __CPROVER_assert(g_interior == (g_i > 0 && g_i + 1 < FD_NLINES), "only lines other than the first and the last may be collapsed"); \
-  if (g_consumed <= g_off && g_off - g_consumed < line_bytes) { \
-    g_hits++; \
-    g_col = line_invalid_start_bytes + (g_off - g_consumed); \
+  __CPROVER_assert(FD_BEFORE(g_i + 1) == FD_BEFORE(g_i) + line_bytes, "bytes consumed up to and including line i (telescoping: the lines consume exactly size bytes)"); \
+  if (FD_BEFORE(g_i) <= g_off && g_off - FD_BEFORE(g_i) < line_bytes) { \
+    g_col = line_invalid_start_bytes + (g_off - FD_BEFORE(g_i)); \
     __CPROVER_assert(g_col == ((start_address + g_off) & 0x0F), "byte g_off of the range is placed in column address & 15"); \
     __CPROVER_assert((uint64_t)(line_start_address + g_col) == (uint64_t)(start_address + g_off), "... of the line that carries its address"); \
-  } \
-  g_consumed += line_bytes; \
+  }
+
+/* loop skeleton: which lines are visited */
+#define FD_LOOP_STEP \
+  __CPROVER_assert(g_i < FD_NLINES, "only lines that intersect the range are visited"); \
   g_i++;
 
-#define FD_LOOP_INVARIANT \
-  __CPROVER_loop_invariant(g_i <= FD_NLINES && g_consumed == FD_BEFORE(g_i) && g_hits == (g_off < g_consumed ? 1 : 0))
+#define FD_RANGE_REQ \
+  __CPROVER_requires(total_size >= 1 && total_size <= ((uint64_t)1 << 62)) \
+  __CPROVER_requires(FD_LAST >= start_address)                      /* the last byte has an address: the range does not wrap */
 
-void fd_line_loop(uint64_t start_address, uint64_t total_size, uint64_t flags)
-__CPROVER_requires(total_size >= 1 && total_size <= ((uint64_t)1 << 62))
-__CPROVER_requires(FD_LAST >= start_address)                      /* the last byte has an address: the range does not wrap */
-__CPROVER_requires(g_off < total_size)
 #ifdef VERIF_SMALL
-__CPROVER_requires(total_size <= 64)
+#define FD_SMALL_REQ __CPROVER_requires(total_size <= 64)
+#else
+#define FD_SMALL_REQ
 #endif
+
+/* the loop visits lines 0 .. FD_NLINES-1 in order, once each, and terminates */
+void fd_line_loop(uint64_t start_address, uint64_t total_size)
+FD_RANGE_REQ FD_SMALL_REQ
 __CPROVER_ensures(g_i == FD_NLINES)
-__CPROVER_ensures(g_consumed == total_size)
-__CPROVER_ensures(g_hits == 1)
+__CPROVER_assigns(g_i);
+
+/* geometry of line g_i (any line of the range), the loop variable having the value the loop invariant gives it */
+void fd_line(uint64_t start_address, uint64_t total_size, uint64_t flags)
+FD_RANGE_REQ FD_SMALL_REQ
+__CPROVER_requires(g_i < FD_NLINES && g_off < total_size)
 __CPROVER_ensures((flags & FD_ANY_OFFSET_FLAG) == 0 ==> g_width == FD_MIN_WIDTH)
-__CPROVER_assigns(g_i, g_consumed, g_hits, g_col, g_interior, g_width);
+__CPROVER_assigns(g_col, g_interior, g_width);
 
 #endif
